@@ -106,7 +106,20 @@ func init() {
 					return smt.BV(uint64(n), 64)
 				}
 			}
-			return smt.Ite(smt.Eq(c, smt.StrLit("")), smt.BV(0, 64), smt.BV(1, 64))
+			// otherwise the sum of the parts' byte lengths (at least 1 when the content is not empty)
+			parts := []*smt.Term{c}
+			if c.Op == "str.++" {
+				parts = c.Args
+			}
+			sum := smt.BV(0, 64)
+			for _, p := range parts {
+				if p.Const {
+					sum = smt.BVAdd(sum, smt.BV(uint64(len(p.Str)), 64))
+				} else {
+					sum = smt.BVAdd(sum, BLen(p))
+				}
+			}
+			return smt.Ite(smt.Eq(c, smt.StrLit("")), smt.BV(0, 64), smt.Ite(smt.BVSlt(sum, smt.BV(1, 64)), smt.BV(1, 64), sum))
 		}
 		models[recv+".Grow"] = func(in *Interp, fn *ssa.Function, a []Value) Value { return nil }
 		models[recv+".Reset"] = func(in *Interp, fn *ssa.Function, a []Value) Value {
@@ -118,6 +131,16 @@ func init() {
 			}
 			return nil
 		}
+	}
+	// ReadFrom(r): appends everything r yields (same reader kinds as io.ReadAll)
+	models["(*bytes.Buffer).ReadFrom"] = func(in *Interp, fn *ssa.Function, a []Value) Value {
+		res := models["io.ReadAll"](in, fn, []Value{a[1]}).(Tuple)
+		if ei, _ := res[1].(*Iface); ei != nil && ei.T != nil {
+			return Tuple{smt.BV(0, 64), res[1]}
+		}
+		b := res[0].(*SliceV)
+		in.bufAppend(a[0], in.stringOfBytes(b))
+		return Tuple{in.lenOf(b), nilError()}
 	}
 	models["(*bytes.Buffer).Bytes"] = func(in *Interp, fn *ssa.Function, a []Value) Value {
 		// the returned slice aliases the buffer: remember which buffer it views
